@@ -19,7 +19,10 @@ def validate_encoded(string):
   if subtype != "f":
     st_range = gfapy.NumericArray.SUBTYPE_RANGE[subtype]
     for e in string.split(",")[1:]:
-      if not (st_range[0] <= int(e) < st_range[1]):
+      # (a number with more digits than the largest range needs is out of
+      #  range; int() refuses strings of several thousand digits)
+      if len(e.lstrip("+-").lstrip("0")) > 10 or \
+          not (st_range[0] <= int(e) < st_range[1]):
         raise gfapy.ValueError(
           "{} is not a valid numeric array string\n".format(repr(string))+
           "(the value {} is outside the range of subtype {})".format(e, subtype))
